@@ -53,7 +53,7 @@ from btcsim.gen import keys as gk
 STANDARD_FLAGS = functools.reduce(operator.or_, list(ScriptFlag))
 NUMS = "50929b74c1a04954b78b4b6035e97a5e078a5a0f28ec96d547bfee9ace803ac0"
 TAPSCRIPT = 0xC0
-SHAPES = ("wpkh", "pkh", "sh-wpkh", "tr", "wsh-multi", "sh-multi", "multi", "sh-wsh-multi", "tr-tree", "wsh-ms")
+SHAPES = ("wpkh", "pkh", "sh-wpkh", "tr", "wsh-multi", "sh-multi", "multi", "sh-wsh-multi", "tr-tree", "wsh-ms", "sh-pkh", "wsh-pkh")
 TAPROOT_SHAPES = ("tr", "tr-tree")
 SIGHASH_TYPES = (None, ALL, NONE, SINGLE, ALL | ANYONECANPAY, NONE | ANYONECANPAY, SINGLE | ANYONECANPAY)
 FINAL = 0xFFFFFFFF
@@ -182,7 +182,7 @@ class WalletSpec:
 
     @property
     def single_key(self) -> bool:
-        return self.shape in ("wpkh", "pkh", "sh-wpkh", "tr")
+        return self.shape in ("wpkh", "pkh", "sh-wpkh", "tr", "sh-pkh", "wsh-pkh")
 
     def leaves(self) -> list[Leaf]:
         def walk(t: Any) -> list[Leaf]:
@@ -208,11 +208,11 @@ def make_wallet(ch: Choices, shape: str, cosigners: Sequence[Cosigner], acct: in
     """A wallet of that shape over (some of) the cosigners; `acct` keeps two wallets' keys apart."""
     cos = list(cosigners)
     n_cos = len(cos)
-    if shape in ("wpkh", "pkh", "sh-wpkh", "tr"):
+    if shape in ("wpkh", "pkh", "sh-wpkh", "tr", "sh-pkh", "wsh-pkh"):
         i = ch.draw(n_cos, "wallet.holder")
         k = _key(cos, (i, acct))
-        text = {"wpkh": f"wpkh({k})", "pkh": f"pkh({k})", "sh-wpkh": f"sh(wpkh({k}))", "tr": f"tr({k})"}[shape]
-        kind = {"wpkh": "segwit0", "pkh": "legacy", "sh-wpkh": "segwit0", "tr": "taproot"}[shape]
+        text = {"wpkh": f"wpkh({k})", "pkh": f"pkh({k})", "sh-wpkh": f"sh(wpkh({k}))", "tr": f"tr({k})", "sh-pkh": f"sh(pkh({k}))", "wsh-pkh": f"wsh(pkh({k}))"}[shape]
+        kind = {"wpkh": "segwit0", "pkh": "legacy", "sh-wpkh": "segwit0", "tr": "taproot", "sh-pkh": "legacy", "wsh-pkh": "segwit0"}[shape]
         return _wallet(shape, kind, text, cos, paths=[Path("key", [(1, [i])])], internal=(i, acct) if shape == "tr" else None)
     if shape in ("multi", "sh-multi", "wsh-multi", "sh-wsh-multi"):
         # up to 15 keys (what a p2sh redeem script can hold), a cosigner holding several of them on
